@@ -116,20 +116,25 @@ let run (t : string list) : string =
         | [] -> None in
       let fa_ = S.sub_query wh ta sa and fb_ = S.sub_query wh tb sb in
       let pick ps l = Stdlib.List.filter (fun e -> Stdlib.List.mem e.S.e_pos ps) l in
-      let la, lb, inexact =
-        if not eng then sa, sb, false
+      let la, lb, inexact, notloss =
+        if not eng then sa, sb, false, false
         else match delivered with
-          | None -> fa_, fb_, false
+          | None -> fa_, fb_, false, false
           | Some (pa, pb) ->
               let la = pick pa sa and lb = pick pb sb in
-              la, lb, (lmap (fun e -> e.S.e_pos) la <> lmap (fun e -> e.S.e_pos) fa_ || lmap (fun e -> e.S.e_pos) lb <> lmap (fun e -> e.S.e_pos) fb_
-                       || Stdlib.List.length la <> Stdlib.List.length pa || Stdlib.List.length lb <> Stdlib.List.length pb) in
+              let pos l = lmap (fun e -> e.S.e_pos) l in
+              let same_a = pos la = pos fa_ && Stdlib.List.length la = Stdlib.List.length pa
+              and same_b = pos lb = pos fb_ && Stdlib.List.length lb = Stdlib.List.length pb in
+              (* every difference must be the NOT-complement loss for the narrow class to apply *)
+              la, lb, not (same_a && same_b),
+              ((same_a || S.not_complement_loss wh ta sa pa) && (same_b || S.not_complement_loss wh tb sb pb)
+               && not (same_a && same_b)) in
       let extra = if eng then [u] else [] in
       let da = k :: tt :: fa @ extra and db = k :: tt :: fb @ extra in
       let contains_absent z = Stdlib.List.exists (fun zz -> Stdlib.List.exists (fun r -> Stdlib.String.length r > 0 && r.[0] = '~')
                                                      (split ';' (match split ':' zz with [_; rows] -> rows | _ -> ""))) (split '/' z) in
       let absent = contains_absent za || contains_absent zb in
-      let fl = flags_out (link_in lk) wh ta tb da db absent la lb (link_texts za @ link_texts zb) ^ (if inexact then ",SubQueryInexact" else "") in
+      let fl = flags_out (link_in lk) wh ta tb da db absent la lb (link_texts za @ link_texts zb) ^ (if inexact then ",SubQueryInexact" else "") ^ (if notloss then ",SubQueryNotComplement" else "") in
       if S.where_ambiguous wh da db then "AMBIGUOUS" ^ fl
       else groups_out limit (S.matcher_groups (link_in lk) wh ta tb la lb) ^ fl
   | _ -> "UNKNOWN_PROBE"
